@@ -22,7 +22,7 @@ EXPLANATION = (
     "requested whenever the old version was not derived from all tags or the new version is user supplied, and it compares "
     "against all tags of all branches."
 )
-LEVEL_NOTE = "Assumes version.parse_version is a total preorder (C16). Not decided: what a real git/hg prints for `tag --list`."
+LEVEL_NOTE = "The order laws of version.parse_version are imported from C16 (R6). Not decided: what a real git/hg prints for `tag --list`."
 
 
 def _is_parse_version(prog, fn, e: ast.AST) -> bool:
